@@ -206,6 +206,7 @@ inline void runInterleaving(Ctx& c, const History& h, const std::vector<int>& or
     const size_t twinAt = order.size() >= 4 ? (mix64(order.size(), static_cast<uint64_t>(order[0]) + 7) % (order.size() - 1)) : order.size();
     const size_t twinDies = (mix64(order.size(), 99) % 2) ? order.size() : twinAt + 1 + (order.size() - twinAt) / 2;
     RefDecoder ref;
+    const size_t copyEvery = order.size() > 5000 ? 9973 : 13;  // (a copy costs as much as the table holds: rarer in the mass histories)
     std::vector<size_t> pos(h.streams.size(), 0);
     std::vector<int> deliveredCount(h.msgs.size(), 0);
     std::vector<Bytes> fed;
@@ -219,7 +220,7 @@ inline void runInterleaving(Ctx& c, const History& h, const std::vector<int>& or
         fed.push_back(f.raw);
         ilHash = mix64(ilHash, static_cast<uint64_t>(ep) * 131 + f.completes.size());
         c.note("history=" + describeFrames(fed, fed.size() - 1));
-        if (step % 13 == 12)
+        if (step % copyEvery == copyEvery - 1)
         {
             // continue on a copy of the decoder (copy-construct + copy-assign): pending reassemblies are part of its value
             ASAM::CMP::Decoder copy(dec);
@@ -542,12 +543,13 @@ inline void manySegments(Ctx& c, long j)
 inline void manyEndpoints(Ctx& c, long j)
 {
     Rng r = c.fixedRng(j, 16);
-    const size_t n = j == 0 ? 300 : (j == 1 ? 257 : 700);
+    // j == 3: 70 000 endpoints open at the same moment (more than a 16-bit count of table entries), device ids spread over the id space
+    const size_t n = j == 0 ? 300 : (j == 1 ? 257 : (j == 2 ? 700 : 70000));
     History h;
     for (size_t e = 0; e < n; ++e)
     {
         Stream st;
-        st.dev = static_cast<uint16_t>(0x0010 + e / 256);
+        st.dev = static_cast<uint16_t>(j == 3 ? (e / 256) * 239 + 5 : 0x0010 + e / 256);
         st.stream = static_cast<uint8_t>(e % 256);
         SentMsg s;
         s.ver = 1;
@@ -622,7 +624,7 @@ inline void manyEndpoints(Ctx& c, long j)
     bool mo;
     runInterleaving(c, h, order, il, mo);
     c.sig(mix64(il, static_cast<uint64_t>(j) + 0xe9d));
-    c.count("histories_with_hundreds_of_endpoints_mid_message");
+    c.count(j == 3 ? "histories_with_70000_endpoints_mid_message" : "histories_with_hundreds_of_endpoints_mid_message");
 }
 
 // deterministic: one endpoint's 3-segment message with 70 000 / 140 000 well-formed frames of two other endpoints between its segments
@@ -765,7 +767,7 @@ inline void randomCase(Ctx& c, long idx)
 
 inline long count(Ctx& c)
 {
-    return 36 + 40 + 3 + 3 + 2 + (c.thorough() ? 3000000 : 40000);
+    return 36 + 40 + 3 + 3 + 2 + 1 + (c.thorough() ? 3000000 : 40000);
 }
 inline void run(Ctx& c, long idx)
 {
@@ -779,6 +781,8 @@ inline void run(Ctx& c, long idx)
         return manyEndpoints(c, idx - 79);
     if (idx < 84)
         return longGap(c, idx - 82);
+    if (idx < 85)
+        return manyEndpoints(c, 3);
     randomCase(c, idx);
 }
 
